@@ -45,6 +45,17 @@ class Node:
 CHILD_KIND = {'seg': 'fld', 'fld': 'cmp', 'cmp': 'sub'}
 
 
+def has_empty(node):
+    """Does the subtree hold a present-but-empty element (a field / component without children, a
+    subcomponent without text)?  Such an element has no counterpart in text: the model does not say how
+    many elements a round trip through text makes of it."""
+    if node.kind == 'sub':
+        return not node.val
+    if node.kind in ('fld', 'cmp') and not node.kids:
+        return True
+    return any(has_empty(k) for k in node.kids)
+
+
 # ------------------------------------------------------------------ text -> model
 def sub_from_text(idx, text):
     return Node('sub', idx, val=text)
